@@ -39,7 +39,15 @@ def run(R, tier, seed):
     R.assumptions += ["the product `greedy structure x 64 KiB blocks` is not decided by a single query",
                       "the `k + 2 blocks` corollary is a property of the greedy reference, not separately encoded"]
     insts = QUICK if tier == "quick" else THOROUGH
-    jobs = [("obligations.c16", "weak_link", dict(pid="C16", tier=tier, seed=seed, tag="weak-agreement"))]
+    # the full-width checksum link runs first and alone (its queries are timing-sensitive under load)
+    n0 = len(R.results)
+    weak_link(R, "C16", tier, seed, "weak-agreement")
+    moved = R.results[n0:]
+    del R.results[n0:]
+    for r in moved:
+        r = dict(r)
+        R.add(r.pop("id"), r.pop("status"), **r)
+    jobs = []
     for (bl, sl, bs) in insts:
         jobs.append(("obligations.c16", "instance", dict(pid="C16", tier=tier, seed=seed, bl=bl, sl=sl, bs=bs, which="C16",
                                                          tag="pipeline[bl=%d,sl=%d,bs=%d]" % (bl, sl, bs))))
